@@ -2,7 +2,7 @@
    RV32IM specification Isa/Spec.v, for all operand values. *)
 From Coq Require Import ZArith List Bool Lia.
 From Maj Require Import Base.Outcome Base.GoInt Base.GoTypes.
-From Maj Require Import Gen.BytesGo Gen.RiscTables Gen.Opcodes Bytes.Proofs Isa.Spec.
+From Maj Require Import Gen.BytesGo Gen.RiscTables Gen.Opcodes Bytes.Proofs Isa.Spec Isa.Embed.
 Import ListNotations.
 Open Scope Z_scope.
 
@@ -165,19 +165,7 @@ Lemma lb_value b : int8 b -> b = s8 (u8 b).
 Proof. intros. rewrite s8_wrap, u8_wrap. symmetry. apply wrapS_of_U; [lia|assumption]. Qed.
 
 (* ------------------------------------------------------------------ *)
-(* embedding                                                            *)
-
-Definition reg_pair (rd v : Z) : Z * Z := if rd =? 0 then (0, 0) else (rd, v).
-
-Definition embed (e : effect) : execution :=
-  match e with
-  | EReg rd v => let '(r, x) := reg_pair rd v in mk_execution true r x false [] 0 false false
-  | EStore bs => mk_execution false 0 0 true bs 0 false false
-  | EFall => mk_execution false 0 0 false [] 0 false false
-  | EGoto a => mk_execution false 0 0 false [] a true false
-  | ELink rd v a => let '(r, x) := reg_pair rd v in mk_execution true r x false [] a true false
-  | EReturn => mk_execution false 0 0 false [] 0 false true
-  end.
+(* embedding: see Isa/Embed.v *)
 
 Definition sinstr_of (i : instr) : sinstr :=
   match i with
@@ -226,25 +214,6 @@ Definition sinstr_of (i : instr) : sinstr :=
   | I_sw o => SSw (sw_rs o) (sw_offset o) (sw_rd o)
   | I_xor o => SXor (xor_rd o) (xor_rs1 o) (xor_rs2 o)
   | I_xori o => SXori (xori_rd o) (xori_rs o) (xori_imm o)
-  end.
-
-(* immediates and offsets of an instruction are int32 (the parser guarantees
-   it: strconv.ParseInt(_, 10, 32)) *)
-Definition imm_of (i : sinstr) : Z :=
-  match i with
-  | SAddi _ _ m | SAndi _ _ m | SOri _ _ m | SXori _ _ m | SSlli _ _ m | SSrli _ _ m | SSrai _ _ m
-  | SSlti _ _ m | SJalr _ _ m | SLui _ m | SAuipc _ m | SLi _ m
-  | SLb _ m _ | SLh _ m _ | SLw _ m _ | SSb _ m _ | SSh _ m _ | SSw _ m _ => m
-  | _ => 0
-  end.
-
-Definition mem_ok (i : sinstr) (mem : list Z) : Prop :=
-  Forall int8 mem /\
-  match i with
-  | SLb _ _ _ => length mem = 1%nat
-  | SLh _ _ _ => length mem = 2%nat
-  | SLw _ _ _ => length mem = 4%nat
-  | _ => True
   end.
 
 Lemma IsRegisterChange_pair rd v : IsRegisterChange rd v = reg_pair rd v.
@@ -487,3 +456,61 @@ Qed.
 (* results stay in the int32 range *)
 Lemma s_range x : int32 (s x).
 Proof. rewrite s_wrap. apply wrapS_range. lia. Qed.
+
+(* ------------------------------------------------------------------ *)
+(* from a specified instruction to the generated representation        *)
+
+Definition instr_of (si : sinstr) : instr :=
+  match si with
+  | SAdd rd a b => I_add (mk_add rd a b)
+  | SAddi rd a m => I_addi (mk_addi m rd a)
+  | SAnd rd a b => I_and (mk_and rd a b)
+  | SAndi rd a m => I_andi (mk_andi m rd a)
+  | SAuipc rd m => I_auipc (mk_auipc rd m)
+  | SBeq a b l => I_beq (mk_beq a b l)
+  | SBeqz a l => I_beqz (mk_beqz a l)
+  | SBge a b l => I_bge (mk_bge a b l)
+  | SBgeu a b l => I_bgeu (mk_bgeu a b l)
+  | SBle a b l => I_ble (mk_ble a b l)
+  | SBlt a b l => I_blt (mk_blt a b l)
+  | SBltu a b l => I_bltu (mk_bltu a b l)
+  | SBne a b l => I_bne (mk_bne a b l)
+  | SBnez a l => I_bnez (mk_bnez a l)
+  | SDiv rd a b => I_div (mk_div rd a b)
+  | SJ l => I_j (mk_j l)
+  | SJal rd l => I_jal (mk_jal l rd)
+  | SJalr rd a m => I_jalr (mk_jalr rd a m)
+  | SLui rd m => I_lui (mk_lui rd m)
+  | SLb rd off a => I_lb (mk_lb rd off a)
+  | SLh rd off a => I_lh (mk_lh rd off a)
+  | SLi rd m => I_li (mk_li rd m)
+  | SLw rd off a => I_lw (mk_lw rd off a)
+  | SNop => I_nop mk_nop
+  | SMul rd a b => I_mul (mk_mul rd a b)
+  | SMv rd a => I_mv (mk_mv rd a)
+  | SOr rd a b => I_or (mk_or rd a b)
+  | SOri rd a m => I_ori (mk_ori m rd a)
+  | SRem rd a b => I_rem (mk_rem rd a b)
+  | SRet => I_ret mk_ret
+  | SSb src off base => I_sb (mk_sb src off base)
+  | SSh src off base => I_sh (mk_sh base src off)
+  | SSll rd a b => I_sll (mk_sll rd a b)
+  | SSlli rd a m => I_slli (mk_slli rd a m)
+  | SSlt rd a b => I_slt (mk_slt rd a b)
+  | SSltu rd a b => I_sltu (mk_sltu rd a b)
+  | SSlti rd a m => I_slti (mk_slti rd a m)
+  | SSra rd a b => I_sra (mk_sra rd a b)
+  | SSrai rd a m => I_srai (mk_srai rd a m)
+  | SSrl rd a b => I_srl (mk_srl rd a b)
+  | SSrli rd a m => I_srli (mk_srli rd a m)
+  | SSub rd a b => I_sub (mk_sub rd a b)
+  | SSw src off base => I_sw (mk_sw src off base)
+  | SXor rd a b => I_xor (mk_xor rd a b)
+  | SXori rd a m => I_xori (mk_xori m rd a)
+  end.
+
+Lemma sinstr_of_instr_of si : sinstr_of (instr_of si) = si.
+Proof. destruct si; reflexivity. Qed.
+
+Lemma instr_of_sinstr_of i : instr_of (sinstr_of i) = i.
+Proof. destruct i as [o|o|o|o|o|o|o|o|o|o|o|o|o|o|o|o|o|o|o|o|o|o|o|o|o|o|o|o|o|o|o|o|o|o|o|o|o|o|o|o|o|o|o|o|o]; destruct o; reflexivity. Qed.
